@@ -41,6 +41,11 @@ def tables(tier):
     T.append(('dyn-url', [], {r'/d/(\d+)$': 'url'}))
     T.append(('dyn-literal', [], {r'/lit$': 'literal'}))
     T.append(('mixed', [(r'/a$', [URLS[1]])], {r'/d/(\d+)$': 'url', r'/lit$': 'literal'}))
+    # overlapping dynamic and static routes of one plugin, in both orders
+    T.append(('ovl-dynlit-first', [r'/lit$', (r'/l', [URLS[0]])], {r'/lit$': 'literal'}))
+    T.append(('ovl-static-first', [(r'/l', [URLS[0]]), r'/lit$'], {r'/lit$': 'literal'}))
+    T.append(('ovl-dynurl-first', [r'/d/(\d+)$', (r'/d/', [URLS[2]])], {r'/d/(\d+)$': 'url'}))
+    T.append(('ovl-static-dynurl', [(r'/d/', [URLS[2]]), r'/d/(\d+)$'], {r'/d/(\d+)$': 'url'}))
     return T
 
 
@@ -75,7 +80,10 @@ def scenarios(tier):
                         continue
                     script = [('send', mk(path)), ('wait_idle',), ('close',)]
                     matching = []
-                    for rx, urls in static:
+                    for ent in static:
+                        if isinstance(ent, str):
+                            continue
+                        rx, urls = ent
                         if re.compile(rx).match(path.decode()):
                             matching.append(('static', urls))
                     for rx, kind in dyn.items():
